@@ -159,7 +159,7 @@ class LoopProp:
                     pending = list(range(len(chain)))
                 else:
                     n_gates, final = unit[1], unit[2]
-                    chain = (final,)
+                    chain = ('cancel' if final == 'gate-cancel' else final,)
                     futs = [loop.create_future() for _ in range(n_gates)]
 
                     async def coro() -> Any:
@@ -169,6 +169,8 @@ class LoopProp:
                         if final == 'exc':
                             errors[0] = ChainError('level-0')
                             raise errors[0]
+                        if final == 'cancel':
+                            raise asyncio.CancelledError()  # the coroutine ends in a cancellation
                         return 'v0'
 
                     adapter = futures.create_task(coro, loop)
@@ -191,7 +193,10 @@ class LoopProp:
                         pending.remove(lv)
                         done_order.append(lv)
                         if kind == 'task':
-                            futs[lv].set_result(None)
+                            if final == 'gate-cancel' and lv == n_gates - 1:
+                                futs[lv].cancel()  # what the coroutine awaits is cancelled: so is the coroutine
+                            else:
+                                futs[lv].set_result(None)
                         else:
                             complete(futs, chain, lv, errors)
                     res.states.add((tuple(done_order), loop.ready_count(), adapter.done()))
@@ -226,7 +231,8 @@ def loop_units(tier: str) -> List[Any]:
     depth = 3 if tier == 'quick' else 4
     units: List[Any] = [('mirror', c) for c in chains(depth)]
     units += [('rpc', c) for c in chains(depth)]
-    units += [('task', n, final) for n in range(0, 3) for final in ('value', 'exc')]
+    units += [('task', n, final) for n in range(0, 3) for final in ('value', 'exc', 'cancel')]
+    units += [('task', n, 'gate-cancel') for n in range(1, 3)]
     return units
 
 
